@@ -97,13 +97,18 @@ def stepLine (st : Option DState) (line : String) : Option DState × String :=
     | some (ans, some (b, src, P)) => (some { s := { b := b }, a := AState.init src, P := P }, ans) -- round4-open
     | some (ans, none) => (none, ans) -- round4-open
     | none => (st, "bad-op") -- round4-open
+  else if ws.head? == some "window" then
+    -- where the window stands (compared exactly: ties the shift/release policy of buffer_refill, e.g. that RaiseAnchor clears bf->stable)
+    match st with
+    | some d => (st, "ok base=" ++ toString d.s.b.base ++ " n=" ++ toString d.s.b.n)
+    | none => (st, "bad-op")
   else if ws.head? == some "checkstable" then
     -- harness-side probe (reads through the pointers handed out under the stable anchor); nothing to do on the model
     (st, "ok")
   else if ws.head? == some "openfail" then
     -- documented failures of the openers (constant answers; see h_buffer.c)
     match arg? ws "kind" with
-    | some "file" | some "open" | some "pipe" => (st, "enotfound bf=1 msg=1 unset=1")
+    | some "file" | some "open" | some "pipe" | some "dir" | some "opendir" => (st, "enotfound bf=1 msg=1 unset=1")
     | some "cmd" => (st, "fail bf=1 msg=1 unset=1")
     | _ => (st, "bad-op")
   else
